@@ -18,6 +18,7 @@ import (
 	"go/token"
 	"go/types"
 	"sort"
+	"strconv"
 	"strings"
 
 	"golang.org/x/tools/go/cfg"
@@ -69,6 +70,9 @@ type State struct {
 	// Feas: for a call whose callee was analysed in context, which of the callee's exits are still consistent with
 	// what has been learnt about its results since (a bool result tested, its error found nil / non-nil)
 	Feas map[*Origin]feas
+	// Lit: the variable holds this struct literal (assigned from it, from a package variable that is initialised
+	// by it and never written, or handed to a parameter of a callee analysed in context)
+	Lit map[types.Object]*ast.CompositeLit
 }
 
 type feas struct {
@@ -79,7 +83,7 @@ type feas struct {
 func newState() *State {
 	return &State{Must: map[Tag]bool{}, May: map[Tag]bool{}, Nil: map[types.Object]int8{}, Bool: map[types.Object]int8{},
 		Eq: map[types.Object]*types.Const{}, Def: map[types.Object]*Origin{}, DefIdx: map[types.Object]int{},
-		Unrep: map[*Origin]bool{}, Pend: map[*Origin]types.Object{}, FuncVal: map[types.Object]*types.Func{}, Cond: map[types.Object]ast.Expr{}, Feas: map[*Origin]feas{}}
+		Unrep: map[*Origin]bool{}, Pend: map[*Origin]types.Object{}, FuncVal: map[types.Object]*types.Func{}, Cond: map[types.Object]ast.Expr{}, Feas: map[*Origin]feas{}, Lit: map[types.Object]*ast.CompositeLit{}}
 }
 
 func (s *State) copy() *State {
@@ -119,6 +123,9 @@ func (s *State) copy() *State {
 	}
 	for k, v := range s.Feas {
 		n.Feas[k] = v
+	}
+	for k, v := range s.Lit {
+		n.Lit[k] = v
 	}
 	return n
 }
@@ -172,6 +179,12 @@ func (s *State) join(o *State) bool {
 	for k, v := range s.Cond {
 		if o.Cond[k] != v {
 			delete(s.Cond, k)
+			ch = true
+		}
+	}
+	for k, v := range s.Lit {
+		if o.Lit[k] != v {
+			delete(s.Lit, k)
 			ch = true
 		}
 	}
@@ -373,8 +386,8 @@ type Spec struct {
 
 	nextInline int
 	paramRoot  map[types.Object]types.Object // parameter of a callee being analysed in context -> the caller's variable it stands for
-	nextFn     *core.FuncInfo // function the next run analyses (CallPoint.Fn)
-	litOwner   *core.FuncInfo // declared function enclosing the literal the next runLit analyses
+	nextFn     *core.FuncInfo                // function the next run analyses (CallPoint.Fn)
+	litOwner   *core.FuncInfo                // declared function enclosing the literal the next runLit analyses
 	inlining   map[*types.Func]bool
 	ctxErr     map[string]bool
 
@@ -932,6 +945,17 @@ func (r *runner) branch(b *cfg.Block, cond ast.Expr, st *State) []*State {
 				}
 			}
 		}
+		if b.Kind == cfg.KindRangeLoop {
+			// a loop over a local collection: its body has run (the collection is not empty) / the loop is behind us
+			if rs, ok := b.Stmt.(*ast.RangeStmt); ok {
+				if o := r.rangedLocal(rs.X); o != nil {
+					st.Must[RangedTag(o)] = true
+					st.May[RangedTag(o)] = true
+					done.Must["past:"+RangedTag(o)] = true
+					done.May["past:"+RangedTag(o)] = true
+				}
+			}
+		}
 		return []*State{st, done}
 	}
 	r.evalExpr(b, cond, st)
@@ -1061,6 +1085,17 @@ func (r *runner) originFail(st *State, o *Origin) {
 
 func (r *runner) refine(cond ast.Expr, branch bool, st *State) {
 	cond = ast.Unparen(cond)
+	if o, empty, ok := r.lenTest(cond, branch); ok {
+		// the body of a loop over the collection has run: it is not empty; the loop is behind us and its body never
+		// ran: it is empty
+		t := RangedTag(o)
+		if empty && st.Must[t] {
+			st.Must[deadTag] = true
+		}
+		if !empty && st.Must["past:"+t] && !st.May[t] {
+			st.Must[deadTag] = true
+		}
+	}
 	if r.sp.CondTags != nil {
 		for _, t := range r.sp.CondTags(r.pkg, cond, branch) {
 			r.addTag(st, t)
@@ -1130,6 +1165,28 @@ func (r *runner) refine(cond ast.Expr, branch bool, st *State) {
 			} else {
 				r.refine(e, branch, st)
 			}
+		} else if or, idx, fld := r.fieldOfResult(x, st); or != nil {
+			// a bool field of a struct a callee analysed in context handed back: only the exits whose literal can
+			// give the field this value remain possible
+			r.narrow(or, st, func(ex *Exit) bool {
+				if idx >= len(ex.Results) {
+					return true
+				}
+				v, zero, known := exitLitField(ex.Results[idx], fld)
+				if !known {
+					return true
+				}
+				if zero {
+					return !branch
+				}
+				if c := core.ConstVal(r.info, v); c != nil && c.Kind() == constant.Bool {
+					return constant.BoolVal(c) == branch
+				}
+				if k, val := r.condValue(v, ex.St); k {
+					return val == branch
+				}
+				return true
+			})
 		}
 	case *ast.CallExpr:
 		if or := r.origins[x]; or != nil {
@@ -1582,10 +1639,21 @@ func (r *runner) call(b *cfg.Block, c *ast.CallExpr, st *State, valueUsed bool) 
 	}
 	callee := core.Callee(r.info, c)
 	if callee == nil {
-		// a call of a func-typed parameter whose value is known in this context
-		if id, ok := ast.Unparen(c.Fun).(*ast.Ident); ok {
-			if o := r.info.Uses[id]; o != nil && st.FuncVal[o] != nil {
-				callee = st.FuncVal[o]
+		// a call of a func-typed parameter / variable / struct field whose value is known in this context
+		if tv, isType := r.info.Types[c.Fun]; !isType || !tv.IsType() {
+			fn, lit := r.funcValueOf(c.Fun, st, 0)
+			if fn != nil {
+				callee = fn
+			} else if lit != nil {
+				// a literal stored in the field: as if it were invoked in place
+				r.sp.litOwner = r.fi
+				sub := r.sp.runLit(r.pkg, lit, r.depth, true)
+				for t := range sub.Sum.MustAll {
+					r.addTag(st, t)
+				}
+				for t := range sub.Sum.May {
+					st.May[t] = true
+				}
 			}
 		}
 	}
@@ -1674,6 +1742,16 @@ func (r *runner) call(b *cfg.Block, c *ast.CallExpr, st *State, valueUsed bool) 
 					if r.pureTest(a) {
 						seed.Cond[params[i]] = ast.Unparen(a)
 					}
+					if l := r.structLit(a, st); l != nil {
+						seed.Lit[params[i]] = l
+					}
+					// the argument is itself a call: the parameter holds that call's (first) result
+					if ac, ok := ast.Unparen(a).(*ast.CallExpr); ok {
+						if aor := r.origins[ac]; aor != nil {
+							seed.Def[params[i]] = aor
+							seed.DefIdx[params[i]] = 0
+						}
+					}
 					// a function or method value handed to a func-typed parameter
 					if _, isFn := params[i].Type().Underlying().(*types.Signature); isFn {
 						switch fx := ast.Unparen(a).(type) {
@@ -1714,6 +1792,16 @@ func (r *runner) call(b *cfg.Block, c *ast.CallExpr, st *State, valueUsed bool) 
 								}
 							}
 						}
+					}
+				}
+			}
+		}
+		// the receiver: a variable (or package variable) known to hold a struct literal
+		if fi.Decl.Recv != nil && len(fi.Decl.Recv.List) == 1 && len(fi.Decl.Recv.List[0].Names) == 1 {
+			if sel, ok := ast.Unparen(c.Fun).(*ast.SelectorExpr); ok {
+				if ro := fi.Pkg.TypesInfo.Defs[fi.Decl.Recv.List[0].Names[0]]; ro != nil {
+					if l := r.structLit(sel.X, st); l != nil {
+						seed.Lit[ro] = l
 					}
 				}
 			}
@@ -1905,34 +1993,75 @@ func (r *runner) leaveThrough(st *State, o *Origin, g []int) {
 	if len(g) == 1 {
 		// a single way out: what is known about the callee's variables there stays known (a result built from them,
 		// e.g. a struct of flags, can be read in their terms)
-		ex := o.Exits[g[0]].St
-		for k, v := range ex.Nil {
-			if _, has := st.Nil[k]; !has {
-				st.Nil[k] = v
+		importFacts(st, o.Exits[g[0]].St)
+	}
+}
+
+// structLit: e is a struct literal, the address of one, a variable known to hold one, or a package variable that is
+// initialised by one (of this package) and never written
+func (r *runner) structLit(e ast.Expr, st *State) *ast.CompositeLit {
+	e = ast.Unparen(e)
+	if u, ok := e.(*ast.UnaryExpr); ok && u.Op == token.AND {
+		e = ast.Unparen(u.X)
+	}
+	switch x := e.(type) {
+	case *ast.CompositeLit:
+		if t := r.info.TypeOf(x); t != nil {
+			if _, isStruct := t.Underlying().(*types.Struct); isStruct {
+				return x
 			}
 		}
-		for k, v := range ex.Bool {
-			if _, has := st.Bool[k]; !has {
-				st.Bool[k] = v
-			}
+	case *ast.Ident:
+		if o := r.info.Uses[x]; o != nil {
+			return r.litOf(o, st)
 		}
-		for k, v := range ex.Eq {
-			if _, has := st.Eq[k]; !has {
-				st.Eq[k] = v
-			}
-		}
-		for k, v := range ex.Def {
-			if _, has := st.Def[k]; !has {
-				st.Def[k] = v
-				st.DefIdx[k] = ex.DefIdx[k]
-			}
-		}
-		for k, v := range ex.Cond {
-			if _, has := st.Cond[k]; !has {
-				st.Cond[k] = v
+	}
+	return nil
+}
+
+func (r *runner) litOf(o types.Object, st *State) *ast.CompositeLit {
+	if l := st.Lit[o]; l != nil {
+		return l
+	}
+	if v, ok := o.(*types.Var); ok && v.Pkg() == r.pkg.Types && v.Parent() == v.Pkg().Scope() {
+		if l, p := r.sp.W.PkgVarLit(v); l != nil && p == r.pkg {
+			if t := r.info.TypeOf(l); t != nil {
+				if _, isStruct := t.Underlying().(*types.Struct); isStruct {
+					return l
+				}
 			}
 		}
 	}
+	return nil
+}
+
+// funcValueOf: the function a func-typed expression denotes in this state: a declared function, a method value or
+// method expression, a func-typed variable / field whose value is known; or a function literal (second result)
+func (r *runner) funcValueOf(e ast.Expr, st *State, depth int) (*types.Func, *ast.FuncLit) {
+	if depth > 4 {
+		return nil, nil
+	}
+	switch x := ast.Unparen(e).(type) {
+	case *ast.FuncLit:
+		return nil, x
+	case *ast.Ident:
+		switch o := r.info.Uses[x].(type) {
+		case *types.Func:
+			return o, nil
+		case *types.Var:
+			if f := st.FuncVal[o]; f != nil {
+				return f, nil
+			}
+		}
+	case *ast.SelectorExpr:
+		if f, ok := r.info.Uses[x.Sel].(*types.Func); ok {
+			return f, nil
+		}
+		if v, zero, ok := r.fieldValue(x, st); ok && !zero {
+			return r.funcValueOf(v, st, depth+1)
+		}
+	}
+	return nil, nil
 }
 
 // fieldValue: x.f where x holds a result of a callee analysed in context and every exit still feasible returns a
@@ -1948,6 +2077,24 @@ func (r *runner) fieldValue(x *ast.SelectorExpr, st *State) (e ast.Expr, zero, o
 	if o == nil || !isVar || !fld.IsField() {
 		return nil, false, false
 	}
+	if lit := r.litOf(o, st); lit != nil {
+		if _, isPkgVar := o.(*types.Var); !isPkgVar || o.Parent() != o.Pkg().Scope() {
+			if r.fieldWritten(o) {
+				return nil, false, false
+			}
+		}
+		var val ast.Expr
+		for _, el := range lit.Elts {
+			kv, isKV := el.(*ast.KeyValueExpr)
+			if !isKV {
+				return nil, false, false
+			}
+			if kid, isKid := kv.Key.(*ast.Ident); isKid && kid.Name == fld.Name() {
+				val = kv.Value
+			}
+		}
+		return val, val == nil, true
+	}
 	or := st.Def[o]
 	if or == nil || !or.Inlined || len(or.Exits) == 0 || len(or.Exits) > 64 {
 		return nil, false, false
@@ -1957,27 +2104,7 @@ func (r *runner) fieldValue(x *ast.SelectorExpr, st *State) (e ast.Expr, zero, o
 	if !has || f.n != len(or.Exits) {
 		f = feas{mask: ^uint64(0) >> (64 - uint(len(or.Exits))), n: len(or.Exits)}
 	}
-	written := false
-	ast.Inspect(r.body, func(n ast.Node) bool {
-		switch y := n.(type) {
-		case *ast.AssignStmt:
-			for _, l := range y.Lhs {
-				if sel, isSel := ast.Unparen(l).(*ast.SelectorExpr); isSel {
-					if lid, isLid := ast.Unparen(sel.X).(*ast.Ident); isLid && r.info.Uses[lid] == o {
-						written = true
-					}
-				}
-			}
-		case *ast.UnaryExpr:
-			if y.Op == token.AND {
-				if lid, isLid := ast.Unparen(y.X).(*ast.Ident); isLid && r.info.Uses[lid] == o {
-					written = true
-				}
-			}
-		}
-		return !written
-	})
-	if written {
+	if r.fieldWritten(o) {
 		return nil, false, false
 	}
 	n := 0
@@ -2025,6 +2152,131 @@ func (r *runner) fieldValue(x *ast.SelectorExpr, st *State) (e ast.Expr, zero, o
 	return e, zero, true
 }
 
+// RangedTag names the event "the body of a range loop over this local collection has run" (established on entry to
+// the body; "past:"+RangedTag on the loop's exit edge). Rules partition on it to keep "no element" apart from "some".
+func RangedTag(o types.Object) Tag {
+	return "ranged:" + o.Name() + "@" + strconv.Itoa(int(o.Pos()))
+}
+
+// rangedLocal: e is a local (or parameter) slice / map / array variable
+func (r *runner) rangedLocal(e ast.Expr) types.Object {
+	id, ok := ast.Unparen(e).(*ast.Ident)
+	if !ok {
+		return nil
+	}
+	v, ok := r.info.Uses[id].(*types.Var)
+	if !ok || v.IsField() || v.Pkg() == nil || v.Parent() == v.Pkg().Scope() {
+		return nil
+	}
+	switch v.Type().Underlying().(type) {
+	case *types.Slice, *types.Map, *types.Array:
+		return r.sp.RootOf(v)
+	}
+	return nil
+}
+
+// lenTest: cond compares len(<local collection>) with 0 / 1: the collection and whether the given branch means
+// "empty"
+func (r *runner) lenTest(cond ast.Expr, branch bool) (o types.Object, empty, ok bool) {
+	be, isBin := ast.Unparen(cond).(*ast.BinaryExpr)
+	if !isBin {
+		return nil, false, false
+	}
+	c, isCall := ast.Unparen(be.X).(*ast.CallExpr)
+	if !isCall || len(c.Args) != 1 {
+		return nil, false, false
+	}
+	if id, isId := c.Fun.(*ast.Ident); !isId || id.Name != "len" {
+		return nil, false, false
+	} else if _, isB := r.info.Uses[id].(*types.Builtin); !isB {
+		return nil, false, false
+	}
+	o = r.rangedLocal(c.Args[0])
+	v := core.ConstVal(r.info, be.Y)
+	if o == nil || v == nil || v.Kind() != constant.Int {
+		return nil, false, false
+	}
+	k, _ := constant.Int64Val(v)
+	switch {
+	case be.Op == token.EQL && k == 0, be.Op == token.LSS && k == 1, be.Op == token.LEQ && k == 0:
+		return o, branch, true
+	case be.Op == token.NEQ && k == 0, be.Op == token.GTR && k == 0, be.Op == token.GEQ && k == 1:
+		return o, !branch, true
+	}
+	return nil, false, false
+}
+
+// fieldOfResult: x.f where x holds result idx of a callee analysed in context (and is not written through)
+func (r *runner) fieldOfResult(x *ast.SelectorExpr, st *State) (*Origin, int, string) {
+	id, isId := ast.Unparen(x.X).(*ast.Ident)
+	if !isId {
+		return nil, 0, ""
+	}
+	o := r.info.Uses[id]
+	fld, isVar := r.info.Uses[x.Sel].(*types.Var)
+	if o == nil || !isVar || !fld.IsField() {
+		return nil, 0, ""
+	}
+	or := st.Def[o]
+	if or == nil || !or.Inlined || len(or.Exits) == 0 || len(or.Exits) > 64 || r.fieldWritten(o) {
+		return nil, 0, ""
+	}
+	return or, st.DefIdx[o], fld.Name()
+}
+
+// exitLitField: the value a returned (keyed) struct literal gives the named field
+func exitLitField(res ast.Expr, field string) (v ast.Expr, zero, ok bool) {
+	res = ast.Unparen(res)
+	if u, isU := res.(*ast.UnaryExpr); isU && u.Op == token.AND {
+		res = ast.Unparen(u.X)
+	}
+	lit, isLit := res.(*ast.CompositeLit)
+	if !isLit {
+		return nil, false, false
+	}
+	for _, el := range lit.Elts {
+		kv, isKV := el.(*ast.KeyValueExpr)
+		if !isKV {
+			return nil, false, false
+		}
+		if kid, isKid := kv.Key.(*ast.Ident); isKid && kid.Name == field {
+			v = kv.Value
+		}
+	}
+	return v, v == nil, true
+}
+
+// fieldWritten: a field of the variable o is assigned, or o's address is taken, somewhere in the analysed body
+func (r *runner) fieldWritten(o types.Object) bool {
+	written := false
+	ast.Inspect(r.body, func(n ast.Node) bool {
+		switch y := n.(type) {
+		case *ast.AssignStmt:
+			for _, l := range y.Lhs {
+				if sel, isSel := ast.Unparen(l).(*ast.SelectorExpr); isSel {
+					if lid, isLid := ast.Unparen(sel.X).(*ast.Ident); isLid && r.info.Uses[lid] == o {
+						written = true
+					}
+				}
+			}
+		case *ast.IncDecStmt:
+			if sel, isSel := ast.Unparen(y.X).(*ast.SelectorExpr); isSel {
+				if lid, isLid := ast.Unparen(sel.X).(*ast.Ident); isLid && r.info.Uses[lid] == o {
+					written = true
+				}
+			}
+		case *ast.UnaryExpr:
+			if y.Op == token.AND {
+				if lid, isLid := ast.Unparen(y.X).(*ast.Ident); isLid && r.info.Uses[lid] == o {
+					written = true
+				}
+			}
+		}
+		return !written
+	})
+	return written
+}
+
 // inlineTarget: a statically resolved callee declared in the analysed function's own package, with a body, not
 // already being inlined (recursion), and not itself an event of the rule (a classified call is a leaf: the rule
 // has said what it means).
@@ -2062,6 +2314,14 @@ func (r *runner) killVar(o types.Object, st *State, pos token.Pos) {
 	delete(st.Def, o)
 	delete(st.DefIdx, o)
 	delete(st.FuncVal, o)
+	if _, isVar := o.(*types.Var); isVar {
+		t := RangedTag(o)
+		delete(st.Must, t)
+		delete(st.May, t)
+		delete(st.Must, "past:"+t)
+		delete(st.May, "past:"+t)
+	}
+	delete(st.Lit, o)
 	delete(st.Cond, o)
 	for k, e := range st.Cond {
 		if r.mentionsObj(e, o) {
@@ -2110,6 +2370,15 @@ func (r *runner) pureOperand(e ast.Expr) bool {
 		return true
 	case *ast.SelectorExpr:
 		return core.ConstObj(r.info, x) != nil
+	case *ast.CallExpr:
+		// len(<variable>)
+		if id, ok := x.Fun.(*ast.Ident); ok && id.Name == "len" && len(x.Args) == 1 {
+			if _, isB := r.info.Uses[id].(*types.Builtin); isB {
+				_, isId := ast.Unparen(x.Args[0]).(*ast.Ident)
+				return isId && r.pureOperand(x.Args[0])
+			}
+		}
+		return false
 	}
 	return r.pureTest(e)
 }
@@ -2181,6 +2450,14 @@ func (r *runner) bind(o types.Object, e ast.Expr, st *State) {
 	case *ast.CompositeLit, *ast.FuncLit:
 		st.Nil[o] = isNonNil
 	case *ast.BasicLit:
+	}
+	if l := r.structLit(e, st); l != nil {
+		st.Lit[o] = l
+	}
+	if _, isFn := o.Type().Underlying().(*types.Signature); isFn {
+		if fn, _ := r.funcValueOf(e, st, 0); fn != nil {
+			st.FuncVal[o] = fn
+		}
 	}
 }
 
@@ -2277,6 +2554,15 @@ func (r *runner) exprNil(e ast.Expr, st *State) int8 {
 	case *ast.SelectorExpr:
 		if o := r.info.Uses[x.Sel]; o != nil && r.sentinel(o) {
 			return isNonNil
+		}
+		if v, zero, ok := r.fieldValue(x, st); ok {
+			if zero {
+				if t := r.info.TypeOf(x); t != nil && nillable(t) {
+					return isNil
+				}
+				return 0
+			}
+			return r.exprNil(v, st)
 		}
 	case *ast.CallExpr:
 		if r.nonNilCall(x, st) {
@@ -2420,9 +2706,157 @@ func (r *runner) exit(ret *ast.ReturnStmt, pos token.Pos, st *State) {
 			}
 		}
 	}
-	ex := &Exit{Stmt: ret, Pos: pos, St: st.copy(), OkImplies: map[Tag]bool{}, FailImpl: map[Tag]bool{}}
-	if ret != nil && len(ret.Results) > 0 {
-		ex.Results = ret.Results
+	var results []ast.Expr
+	if ret != nil {
+		results = ret.Results
+	}
+	// a field of a variable known to hold a struct literal stands for what the literal gives it
+	if len(results) > 0 {
+		var sub []ast.Expr
+		for i, e := range results {
+			sel, ok := ast.Unparen(e).(*ast.SelectorExpr)
+			if !ok {
+				continue
+			}
+			id, ok := ast.Unparen(sel.X).(*ast.Ident)
+			if !ok {
+				continue
+			}
+			if o := r.info.Uses[id]; o == nil || r.litOf(o, st) == nil {
+				continue
+			}
+			if v, zero, known := r.fieldValue(sel, st); known && !zero {
+				if sub == nil {
+					sub = append([]ast.Expr{}, results...)
+				}
+				sub[i] = v
+			}
+		}
+		if sub != nil {
+			results = sub
+		}
+	}
+	// `o := helper(..); return o.status, o.err` with the helper analysed in this context and handing back a struct
+	// literal on every exit: one exit per way out of the helper that is still possible, with the fields replaced by
+	// what that literal gave them
+	if r.record && len(results) == r.nres && r.nres > 0 {
+		if or, obj := r.structResult(results, st); or != nil {
+			f, has := st.Feas[or]
+			if !has || f.n != len(or.Exits) {
+				f = feas{mask: ^uint64(0) >> (64 - uint(len(or.Exits))), n: len(or.Exits)}
+			}
+			done := true
+			var exits []func()
+			for k := range or.Exits {
+				if f.mask&(1<<uint(k)) == 0 {
+					continue
+				}
+				stk := st.copy()
+				stk.Feas[or] = feas{mask: 1 << uint(k), n: len(or.Exits)}
+				for t := range or.Exits[k].St.Must {
+					if t != deadTag {
+						stk.Must[t] = true
+						stk.May[t] = true
+					}
+				}
+				importFacts(stk, or.Exits[k].St)
+				sub := make([]ast.Expr, len(results))
+				for i, e := range results {
+					sub[i] = e
+					if sel, ok := ast.Unparen(e).(*ast.SelectorExpr); ok {
+						if id, ok := ast.Unparen(sel.X).(*ast.Ident); ok && r.info.Uses[id] == obj {
+							v, zero, known := r.fieldValue(sel, stk)
+							if !known {
+								done = false
+							} else if !zero {
+								sub[i] = v
+							}
+						}
+					}
+				}
+				exits = append(exits, func() { r.exitWith(ret, sub, pos, stk, or) })
+			}
+			if done && len(exits) > 0 {
+				for _, f := range exits {
+					f()
+				}
+				return
+			}
+		}
+	}
+	r.exitWith(ret, results, pos, st, nil)
+}
+
+// structResult: some returned expression is a field of a variable that holds a result of a callee analysed in context
+func (r *runner) structResult(results []ast.Expr, st *State) (*Origin, types.Object) {
+	for _, e := range results {
+		sel, ok := ast.Unparen(e).(*ast.SelectorExpr)
+		if !ok {
+			continue
+		}
+		id, ok := ast.Unparen(sel.X).(*ast.Ident)
+		if !ok {
+			continue
+		}
+		o := r.info.Uses[id]
+		if o == nil {
+			continue
+		}
+		if fld, isVar := r.info.Uses[sel.Sel].(*types.Var); !isVar || !fld.IsField() {
+			continue
+		}
+		if or := st.Def[o]; or != nil && or.Inlined && len(or.Exits) > 0 && len(or.Exits) <= 64 {
+			return or, o
+		}
+	}
+	return nil, nil
+}
+
+// importFacts: what is known about the callee's variables on its exit stays known in the caller (their objects are
+// distinct from the caller's)
+func importFacts(st, ex *State) {
+	for k, v := range ex.Nil {
+		if _, has := st.Nil[k]; !has {
+			st.Nil[k] = v
+		}
+	}
+	for k, v := range ex.Bool {
+		if _, has := st.Bool[k]; !has {
+			st.Bool[k] = v
+		}
+	}
+	for k, v := range ex.Eq {
+		if _, has := st.Eq[k]; !has {
+			st.Eq[k] = v
+		}
+	}
+	for k, v := range ex.Def {
+		if _, has := st.Def[k]; !has {
+			st.Def[k] = v
+			st.DefIdx[k] = ex.DefIdx[k]
+		}
+	}
+	for k, v := range ex.Cond {
+		if _, has := st.Cond[k]; !has {
+			st.Cond[k] = v
+		}
+	}
+	for k, v := range ex.Lit {
+		if _, has := st.Lit[k]; !has {
+			st.Lit[k] = v
+		}
+	}
+	for k, v := range ex.FuncVal {
+		if _, has := st.FuncVal[k]; !has {
+			st.FuncVal[k] = v
+		}
+	}
+}
+
+func (r *runner) exitWith(ret *ast.ReturnStmt, results []ast.Expr, pos token.Pos, st *State, via *Origin) {
+	ex := &Exit{Stmt: ret, Pos: pos, St: st.copy(), OkImplies: map[Tag]bool{}, FailImpl: map[Tag]bool{}, Via: via}
+	if len(results) > 0 {
+		ex.Results = results
 	} else if r.nres > 0 {
 		// naked return: the named results
 		for _, o := range r.results {
@@ -2437,14 +2871,14 @@ func (r *runner) exit(ret *ast.ReturnStmt, pos token.Pos, st *State) {
 	switch {
 	case r.errIdx < 0:
 		ex.Class = ExitNoErr
-	case ret != nil && len(ret.Results) == 1 && r.nres > 1:
+	case len(results) == 1 && r.nres > 1:
 		// return f() with a multi-value call
 		ex.Class = ExitEither
-		if c, ok := ast.Unparen(ret.Results[0]).(*ast.CallExpr); ok {
+		if c, ok := ast.Unparen(results[0]).(*ast.CallExpr); ok {
 			ex.ErrOrigin = r.origins[c]
 		}
-	case ret != nil && len(ret.Results) > r.errIdx:
-		e := ast.Unparen(ret.Results[r.errIdx])
+	case len(results) > r.errIdx:
+		e := ast.Unparen(results[r.errIdx])
 		switch r.exprNil(e, st) {
 		case isNil:
 			ex.Class = ExitOK
@@ -2524,7 +2958,7 @@ func (r *runner) exit(ret *ast.ReturnStmt, pos token.Pos, st *State) {
 			}
 		}
 	}
-	if r.boolIdx >= 0 && r.boolIdx < len(ex.Results) && (ret == nil || len(ret.Results) != 1 || r.nres == 1) {
+	if r.boolIdx >= 0 && r.boolIdx < len(ex.Results) && (len(results) != 1 || r.nres == 1) {
 		e := ast.Unparen(ex.Results[r.boolIdx])
 		if v := core.ConstVal(r.info, e); v != nil && v.Kind() == constant.Bool {
 			if constant.BoolVal(v) {
@@ -2532,7 +2966,7 @@ func (r *runner) exit(ret *ast.ReturnStmt, pos token.Pos, st *State) {
 			} else {
 				ex.BoolRes = isFalse
 			}
-		} else if ret != nil && len(ret.Results) > 0 {
+		} else if len(results) > 0 {
 			if known, val := r.condValue(e, st); known {
 				if val {
 					ex.BoolRes = isTrue
@@ -2555,7 +2989,7 @@ func (r *runner) exit(ret *ast.ReturnStmt, pos token.Pos, st *State) {
 	for or, v := range st.Pend {
 		used := false
 		for _, e := range ex.Results {
-			if id, ok := ast.Unparen(e).(*ast.Ident); ok && (r.info.Uses[id] == v || (ret == nil || len(ret.Results) == 0) && id.Name == v.Name()) {
+			if id, ok := ast.Unparen(e).(*ast.Ident); ok && (r.info.Uses[id] == v || len(results) == 0 && id.Name == v.Name()) {
 				used = true
 			}
 		}
